@@ -92,7 +92,7 @@ def run_a(prop, tier, want, n_quick=1500, n_thorough=30000, gen_kwargs=None, dir
                source_length_histogram=dict(sorted(srclens.items())), observation_outcomes=dict(endings.most_common()),
                samples=[gen_a.coq_prog(c.prog)[:400] for c in cases[n_corpus:n_corpus + 4]],
                exhaustive=False)
-    return dict(coverage=cov, failures=failures,
+    return dict(coverage=cov, failures=failures, cases=cases,
                 assumptions=['numpy indexing / array_split / pickle / deepcopy behave as modelled in PySlice.v and Base.v',
                              'thread backend observed under the OS schedule here (all schedules: C04)'])
 
